@@ -596,6 +596,22 @@ pub fn all_suites(thorough: bool) -> Vec<Suite> {
         s.max_heavy = 2;
         v.push(s);
     }
+    // replacements that SHRINK a device-backed record through compare_and_swap (the one path that
+    // releases the size difference itself), before and after the old bytes were offloaded (C13n)
+    for format in [3, 2] {
+        let ops = vec![
+            ins(0, V_BIG2),
+            Op::Cas { k: 0, expect: V_BIG2, new: V_X, ts: 0, ttl: 0 },
+            Op::Cas { k: 0, expect: V_CNT, new: V_X, ts: 0, ttl: 0 },
+            ins(0, V_CNT),
+            Op::Flush,
+            Op::Delete { k: 0, ts: 0 },
+            Op::Len,
+        ];
+        let mut s = suite(&format!("disk-shrink-v{format}"), disk(format, true, false), std_tables(), ops, d(4, 5));
+        s.max_heavy = 2;
+        v.push(s);
+    }
     for format in [3, 1] {
         let cfg = disk(format, true, true);
         let mut s = suite(&format!("disk-v{format}-ttl"), cfg, std_tables(), ttl_ops(true), d(2, 3));
